@@ -2,10 +2,16 @@ from checks import rapid, plain, REPLAY
 
 CHECK = dict(
     pkg="c05", level="exploration",
-    rule="one RegClient.BlobPut per case: chunk size c 1..64 and single-PUT limit through reg.WithBlobSize and/or config.Host BlobChunk/BlobMax "
+    rule="one to two uploads per case through RegClient.BlobPut (or RegClient.BlobCopy from a layout / another registry / another repository incl. cross-repository mount, "
+         "which reaches BlobPut with a blob.Reader): chunk size c 1..64 (rarely 8-64 KiB or the 1 MiB default) and single-PUT limit through reg.WithBlobSize, reg.WithBlobLimit (either option order) "
+         "and/or config.Host BlobChunk/BlobMax "
          "x blob length on every boundary of c, of the server-raised chunk size and of the limit (0, 1, c-1, c, c+1, 2c-1, 2c, 2c+1, 3c+r, max-1, max, max+1, >max) "
          "x declared descriptor (absent, correct, digest-only, size-only, wrong digest in 3 flavours with/without size, size too small / too large with/without digest) "
-         "x seekable / non-seekable source with a generated short-read pattern and EOF-with-data x sha256 / sha512 "
+         "(rarely 32 KiB-1 .. 96 KiB+1 and 1 MiB-1 .. 1 MiB+4097) x descriptor with/without mediaType/annotations "
+         "x seekable / non-seekable / Seek-always-fails source with a generated short-read pattern, EOF-with-data and an optional non-EOF failure in mid-stream x sha256 / sha512 "
+         "x context live / cancelled / deadline expired / cancelled when request k arrives / cancelled after n source bytes "
+         "x reference form (repository, tag, digest, tag+digest) x host configuration (port, PathPrefix, TLS disabled, a mirror of lower or higher priority, Basic credentials demanded by the registry) "
+         "x destination pre-state (empty, same blob already present) x repetition on one client (same blob again, a second different blob) "
          "x destination (regmodel strict, regmodel lax-but-truthful, fresh OCI layout) x registry behaviour (anonymous mount 201 with the blob present elsewhere / 202+Location / 4xx, "
          "OCI-Chunk-Min-Length, six upload Location styles incl. state tokens that change on every response, path-relative relocation and hand-over to an upload backend host, "
          "cyclic partial-acceptance plans answered 202+Range or 416+Location+Range, refused monolithic PUT, early 201) x up to two transient failures (retryable status, "
@@ -14,7 +20,7 @@ CHECK = dict(
          "acceptance plan, location style, partial mode, refuse/early/mount/min-chunk settings, fault plan, source kind, algorithm).",
     jobs=[REPLAY,
           plain("grid", "TestVerifGrid", sq=2, st=8, timeout=dict(quick=900, thorough=3000)),
-          rapid("prop", "TestVerifProp", 400_000, 6_000_000, sq=14, st=16, timeout=dict(quick=900, thorough=3000))],
+          rapid("prop", "TestVerifProp", 330_000, 5_000_000, sq=14, st=16, timeout=dict(quick=900, thorough=3000))],
     technique="property-based testing (rapid) of the public BlobPut API against an in-process model registry that owns the transport (strict: verifies Content-Range continuity "
               "and the closing digest; lax: appends what it says it accepted and verifies nothing, so the bytes the client really sent become visible) and against fresh OCI "
               "layout directories; oracle reads raw destination storage; plus an exhaustive sweep of the chunk loop over (length, chunk size, accepted offset)",
@@ -27,6 +33,9 @@ CHECK = dict(
                "failure was delivered, when more transient failures / refusals hit one host than the configured retry limit tolerates, or when a non-seekable source meets a behaviour "
                "that forces a rewind (refused or failed single PUT); clause (2) against the lax model when the single PUT is used (a streaming PUT relies on the registry's mandatory "
                "digest verification); the anonymous-mount shortcut is only offered for a fully correct declaration (a granted mount trusts the descriptor without reading the stream). "
+               "Also not asserted: success after the generated cancellation was delivered, after the source itself failed (then only: what is stored on success equals the bytes the "
+               "source handed out), after an earlier upload of the same client failed and a further failure needs the unknown backoff budget, when the registry enforces a minimum chunk "
+               "above the client's configured chunk limit, or when the harness's own request cap ends an upload that was still advancing. "
                "The model never answers 'nothing accepted yet' at offset 0 (Range 0-0 ambiguity of the spec). Temp files left in a layout after a failed put are not judged.",
     assumptions=["regmodel's strict mode represents a standards-conforming registry", "in-memory transport (no TLS, no sockets)",
                  "a declared size of 0 / empty digest means 'unknown' as documented on BlobPut"],
